@@ -254,7 +254,10 @@ def main(argv):
         c.append(("Not", cnd.recipe))
     sc2 = [s for s in l2 if not s.cond and s.rank == 0 and not s.fid]
     if quick:
-        sc2 = sorted(sc2, key=lambda s: (len(repr(s.recipe)), repr(s.recipe)))[:1200]
+        short = sorted(sc2, key=lambda s: (len(repr(s.recipe)), repr(s.recipe)))[:1200]
+        chosen = {id(s) for s in short}
+        # every conditional is compared again (its type is decided from its branches), in both tiers
+        sc2 = short + [s for s in sc2 if id(s) not in chosen and s.recipe[0] == "conditional"]
     for s in sc2:
         for op in ("lt", "max_value"):
             c.append((op, s.recipe, ("t", "two")))
